@@ -143,7 +143,8 @@ pub fn quote(s: OsString) -> String {
         .any(|c| c < '\u{20}' || c == '\u{7f}' || c == '\u{fffd}' || c == '\'')
     {
         format!("$'{}'", to_stfu8(s).replace('\'', "\\'"))
-    } else if lossy.chars().any(|c| SPECIAL_CHARS.contains(&c)) {
+    } else if lossy.is_empty() || lossy.chars().any(|c| SPECIAL_CHARS.contains(&c)) {
+        // (an empty argument must be quoted as well, otherwise it disappears)
         format!("'{lossy}'")
     } else {
         lossy.to_string()
